@@ -110,6 +110,7 @@ type Exec struct {
 	named       map[string]*Term
 	specLive    *State
 	havocLog    []havocRec
+	inTypeInv   bool
 }
 
 type debugRef struct {
@@ -148,6 +149,25 @@ func (ex *Exec) freshValue(st *State, t types.Type, prefix string) Value {
 // assumeWF assumes machine ranges, slice well-formedness and "not newer than
 // the allocation counter" for the leaves of v.
 func (ex *Exec) assumeWF(st *State, v Value) {
+	if v.T != nil && len(ex.specs.TypeInvs) > 0 && !ex.inTypeInv {
+		if ti, ok := ex.specs.TypeInvs[typeKey(v.T)]; ok {
+			ex.inTypeInv = true
+			env := &Env{ex: ex, cur: st, old: st, live: st, vars: map[string]Value{ti.Var: v}, pkg: pkgOf(ex.fn)}
+			func() {
+				defer func() {
+					ex.inTypeInv = false
+					if r := recover(); r != nil {
+						if se, ok := r.(specErr); ok {
+							ex.unsupported["typeinv: "+se.msg] = true
+							return
+						}
+						panic(r)
+					}
+				}()
+				st.assume(env.boolTerm(ti.Expr))
+			}()
+		}
+	}
 	ls := leavesOf(v.T)
 	for i, l := range ls {
 		x := v.L[i]
@@ -170,6 +190,10 @@ func (ex *Exec) assumeWF(st *State, v Value) {
 			st.assume(Implies(Eq(x, Int(0)), And(Eq(cp, Int(0)), Eq(off, Int(0)))))
 		case "tag":
 			st.assume(Le(Int(0), x))
+			if n, ok := l.Typ.(*types.Named); ok {
+				// a non-nil value of a named interface type implements it
+				st.assume(Implies(Ne(x, Int(0)), UF("implements."+typeKey(n), SBool, x)))
+			}
 			for _, pt := range ex.repoPtrTags() {
 				st.assume(Implies(Eq(x, Int(int64(pt))), Gt(v.L[i+1], Int(0))))
 			}
@@ -276,6 +300,10 @@ func (ex *Exec) loadGlobal(st *State, name string, t types.Type) Value {
 	if c, ok := ex.globalConsts()[name]; ok {
 		v := constValue(t, c)
 		return v
+	}
+	if k, ok := ex.sentinelErrors()[name]; ok {
+		// package-level error created by errors.New in init: non-nil, with an identity of its own
+		return Value{T: t, L: []*Term{Int(int64(typeTagByName("*errors.errorString"))), Int(int64(-2000000000 - k))}}
 	}
 	ls := leavesOf(t)
 	v := Value{T: t, L: make([]*Term, len(ls))}
@@ -682,4 +710,42 @@ func (ex *Exec) repoPtrTags() []int {
 		}
 	}
 	return repoPtrTagCache
+}
+
+var sentinelCache map[string]int
+
+// sentinelErrors: package-level variables assigned the result of errors.New in init.
+func (ex *Exec) sentinelErrors() map[string]int {
+	if sentinelCache != nil {
+		return sentinelCache
+	}
+	sentinelCache = map[string]int{}
+	var names []string
+	for _, p := range ex.prog.AllPackages() {
+		init := p.Func("init")
+		if init == nil {
+			continue
+		}
+		for _, b := range init.Blocks {
+			for _, ins := range b.Instrs {
+				stv, ok := ins.(*ssa.Store)
+				if !ok {
+					continue
+				}
+				g, isG := stv.Addr.(*ssa.Global)
+				call, isCall := stv.Val.(*ssa.Call)
+				if !isG || !isCall {
+					continue
+				}
+				if callee := call.Common().StaticCallee(); callee != nil && callee.String() == "errors.New" {
+					names = append(names, g.Pkg.Pkg.Path()+"."+g.Name())
+				}
+			}
+		}
+	}
+	sort.Strings(names)
+	for i, n := range names {
+		sentinelCache[n] = i + 1
+	}
+	return sentinelCache
 }
